@@ -807,6 +807,28 @@ func (e *Env) call(ex *ast.CallExpr) (SymVal, error) {
 			return mkBool(fmt.Sprintf("(forall ((%s %s)) %s)", bn, srt, sImp(rng, body.S))), nil
 		}
 		return mkBool(fmt.Sprintf("(exists ((%s %s)) %s)", bn, srt, sAnd(rng, body.S))), nil
+	case "existsint", "forallint":
+		id, ok := ex.Args[0].(*ast.Ident)
+		if !ok || len(ex.Args) != 2 {
+			return SymVal{}, fmt.Errorf("%s(i, body)", name)
+		}
+		ce := e.child()
+		bn := fmt.Sprintf("%s!q%d", id.Name, c.nfresh)
+		c.nfresh++
+		srt := "Int"
+		if c.bv {
+			srt = "(_ BitVec 64)"
+		}
+		ce.vars[id.Name] = SymVal{K: KInt, S: bn, T: nil}
+		body, err := ce.eval(ex.Args[1])
+		if err != nil {
+			return SymVal{}, err
+		}
+		q := "exists"
+		if name == "forallint" {
+			q = "forall"
+		}
+		return mkBool(fmt.Sprintf("(%s ((%s %s)) %s)", q, bn, srt, body.S)), nil
 	case "isnil":
 		x, err := arg(0)
 		if err != nil {
